@@ -362,8 +362,8 @@ def tLang := qn nsXml (T "lang")
 
 /-- `gen_fault_codes`: first segment → Sender / Receiver, TypeError otherwise -/
 def codeHead12 (F : Facts09) (first : Text) : Option Text :=
-  if first = T "Client" then some (F.env12Prefix ++ T ":Sender")
-  else if first = T "Server" then some (F.env12Prefix ++ T ":Receiver")
+  if first = T "Client" then some (F.env12Prefix ++ ':' :: T "Sender")
+  else if first = T "Server" then some (F.env12Prefix ++ ':' :: T "Receiver")
   else none
 
 /-- the nested `Subcode` chain built from the remaining segments (innermost last) -/
@@ -754,5 +754,25 @@ def Step.erase : Step → Step
 def UserCode.erase : UserCode → UserCode
   | .plain s => .plain s.erase
   | .gen first later => .gen first.erase (later.map Raised.erase)
+
+/-! ## specification vocabulary (used by the property theorems) -/
+
+/-- the documented table of dedicated classes, in the documented order -/
+def docTable : List (Ded × Nat) :=
+  [(.tooLong, 413), (.notFound, 404), (.notAllowed, 405), (.invalidCred, 401)]
+
+/-- a fault code is a client code: `Client` itself or `Client.` followed by anything -/
+def IsClient (code : Text) : Prop := code = T "Client" ∨ ∃ r, code = T "Client." ++ r
+
+/-- what survives of a top-level detail in SOAP 1.1 / XmlDocument: `{}` is not sent, and below
+    the top XML cannot tell an empty string, an empty dict and None apart -/
+def normTop11 : Option (List (Text × Detail)) → Option (List (Text × Detail))
+  | none => none
+  | some [] => none
+  | some (kv :: rest) => some (normKvs (kv :: rest))
+
+/-- the documented generic fault -/
+def internalError : FaultV :=
+  { code := T "Server", str := T "Internal Error", actor := [], detail := none, lang := T "en" }
 
 end SpyneModel.Faults
